@@ -15,7 +15,10 @@ RULE = ('one case = one (initial capacity, altitude mode, increments kind) confi
         'ALL histories over {I0,I1,I2,I3,Irest,predict,set_pva A,set_pva B} on a 10-row table with at '
         'most d deviations from the default I1 are explored breadth-first on live objects, states '
         'merged by a content hash of trajectory + internal buffers + capacity. Non-trivial/distinct = '
-        'distinct reachable states (content hashes) summed over configurations.')
+        'distinct reachable states (content hashes) summed over configurations. Unobserved histories (part = blind): '
+        'ALL histories with <= d deviations executed depth-first on objects that are never read between the calls; after '
+        'every prefix each first observation of {get_time, get_pva, trajectory, empty integrate, none} is tried on its '
+        'own copy, then the remaining increments are integrated in one call and the result compared.')
 ASSUMPTIONS = [
     'NUMBA_BOUNDSCHECK=1: an out-of-capacity kernel write raises IndexError instead of corrupting memory',
     'bitwise comparison of two executions on the same machine',
@@ -35,6 +38,14 @@ def gen_cases(tier, seed):
                 d_here = dev + 1 if cap == 2 else dev
                 cases.append(dict(capacity=cap, wa=wa, kind=kind, init_vd=0.25, max_dev=d_here,
                                   set_ops=['Sa', 'Sb']))
+    # unobserved histories (engine E1b): no state is read between the calls, every first observation is tried
+    # after every prefix.  quick: <= 1 deviation everywhere, <= 2 for capacity 2; thorough: <= 2 / <= 3
+    for cap in (1, 2, 4):
+        for wa in (True, False):
+            for kind in ('normal',) if tier == 'quick' else ('normal', 'deadband', 'dupstamps'):
+                d_blind = (2 if cap == 2 and kind == 'normal' else 1) + (0 if tier == 'quick' else 1)
+                cases.append(dict(part='blind', capacity=cap, wa=wa, kind=kind, init_vd=0.25, max_dev=d_blind,
+                                  set_ops=['Sa', 'Sb']))
     if tier == 'thorough':
         # capacity larger than the table (no growth at all) as the control configuration
         for wa in (True, False):
@@ -48,6 +59,8 @@ def _run(case, prefix):
                        case.get('set_ops', ['Sa', 'Sb']), case.get('max_dev', 2))
     if 'history' in case:
         ex.replay(case['history'])
+    elif case.get('part') == 'blind' or case.get('blind'):
+        ex.run_blind(case.get('max_dev', 1))
     else:
         ex.run()
     viol = [v for v in ex.viol if v['sig'].startswith(prefix)]
@@ -55,7 +68,8 @@ def _run(case, prefix):
     # means the first one found has the fewest deviations)
     first = {}
     for v in viol:
-        first.setdefault(v['sig'], v)
+        if v['sig'] not in first or len(v['replay_case']['history']) < len(first[v['sig']]['replay_case']['history']):
+            first[v['sig']] = v
     return ex, list(first.values())
 
 
